@@ -275,6 +275,13 @@ class MiniMallocate(RewritePattern):
                             for result in use.operation.results
                             if is_cast or isinstance(result.type, builtin.MemRefType)
                         )
+                        # a value handed to a region terminator (scf.yield, ...) leaves the region as a
+                        # result of the enclosing op: follow the memref results of that op as well
+                        parent_op = use.operation.parent_op()
+                        if use.operation.has_trait(IsTerminator) and parent_op is not None and parent_op is not func_op:
+                            worklist.extend(
+                                result for result in parent_op.results if isinstance(result.type, builtin.MemRefType)
+                            )
 
             if op in uses:
                 # udpate lifetime of buffer
